@@ -104,5 +104,13 @@ ARead(v) ==            \* a getter is called (an action: it may populate caches 
   /\ "read" \in Acts
   /\ Step([a |-> "read", v |-> v], obj)
 
+\* ---- structure-changing mutators and sampling ----------------------------------------------------------
+AReverse ==   /\ "reverse" \in Acts /\ PDim(obj) = 1 /\ Step([a |-> "reverse"], ReverseCurve(obj))
+ATranspose == /\ "transpose" \in Acts /\ PDim(obj) = 2 /\ Step([a |-> "transpose"], Transpose(obj))
+AFlip ==      /\ "flip" \in Acts /\ PDim(obj) = 2 /\ Step([a |-> "flip"], Flip(obj))
+ATranslate(vec) == /\ "translate" \in Acts /\ Step([a |-> "translate", vec |-> vec], Translate(obj, vec))
+\* sampling density is part of the object state but not of `def`; the step is recorded so that the replay applies it
+ASampleSize(n) == /\ "sample_size" \in Acts /\ Step([a |-> "sample_size", n |-> n], obj)
+
 Emit == hist # <<>> => PrintT("CASE " \o ToJson([sh0 |-> sh0, hist |-> hist, obj |-> obj]))
 =============================================================================
